@@ -233,12 +233,18 @@ func parseCase(s string) (bcase, bool) {
 
 func (c bcase) request() *ua.BrowseRequest {
 	rt := nodeID(c.rt)
+	// the server has no continuation points and ignores the result mask: whatever the request asks
+	// for here, the complete list of matching references must come back in one answer (varied
+	// deterministically with the case, so that replay sends the same request)
+	v := c.node*7 + uint64(c.dir)*3 + c.rt + uint64(c.mask)
 	return &ua.BrowseRequest{
-		RequestHeader: &ua.RequestHeader{},
-		View:          &ua.ViewDescription{ViewID: ua.NewTwoByteNodeID(0)},
+		RequestHeader:                 &ua.RequestHeader{},
+		View:                          &ua.ViewDescription{ViewID: ua.NewTwoByteNodeID(0)},
+		RequestedMaxReferencesPerNode: []uint32{0, 1, 2, 1000}[v%4],
 		NodesToBrowse: []*ua.BrowseDescription{{
 			NodeID: nodeID(c.node), BrowseDirection: ua.BrowseDirection(c.dir), ReferenceTypeID: rt,
-			IncludeSubtypes: c.sub, NodeClassMask: c.mask, ResultMask: uint32(ua.BrowseResultMaskAll),
+			IncludeSubtypes: c.sub, NodeClassMask: c.mask,
+			ResultMask: []uint32{uint32(ua.BrowseResultMaskAll), 0, uint32(ua.BrowseResultMaskReferenceTypeID), uint32(ua.BrowseResultMaskNodeClass)}[(v/4)%4],
 		}},
 	}
 }
@@ -248,6 +254,9 @@ func resultTok(res *ua.BrowseResult) string {
 		return fmt.Sprintf("status-%08x", uint32(res.StatusCode))
 	}
 	out := []string{"ok"}
+	if len(res.ContinuationPoint) > 0 {
+		out = append(out, "continuation-point") // BrowseNext is not supported: nothing may be held back
+	}
 	for _, r := range res.References {
 		t, _ := key(r.ReferenceTypeID)
 		g, _ := key(r.NodeID.NodeID)
@@ -674,6 +683,15 @@ func main() {
 		ch.stop()
 	} else {
 		r.InfraError = "child: " + err.Error()
+	}
+	// BrowseNext is answered with a ServiceFault BadServiceUnsupported (no continuation points exist)
+	{
+		resp, err, ok := w.srv.VerifCallService(nil, &ua.BrowseNextRequest{RequestHeader: &ua.RequestHeader{}, ContinuationPoints: [][]byte{{1}}})
+		f, isFault := resp.(*ua.ServiceFault)
+		if !ok || err != nil || !isFault || f.ResponseHeader.ServiceResult != ua.StatusBadServiceUnsupported {
+			r.Fail("browsenext", "", fmt.Sprintf("BrowseNext answered %T %v", resp, err))
+		}
+		r.Hit("browsenext-unsupported")
 	}
 	// the former witness of the stale class: the folder's reference to i=5010 was recorded as Variable,
 	// the node says Object now; mask=Object must return it, mask=Variable must not
